@@ -865,11 +865,12 @@ class InterfaceClass(_InterfaceClassBase):
         if not all:
             return self.__attrs.items()
 
+        # Follow the resolution order, like ``get`` / ``__getitem__`` do:
+        # the description of a name is the one defined by the first
+        # interface in ``__iro__`` that defines it directly.
         r = {}
-        for base in self.__bases__[::-1]:
-            r.update(dict(base.namesAndDescriptions(all)))
-
-        r.update(self.__attrs)
+        for iface in reversed(self.__iro__):
+            r.update(dict(iface.namesAndDescriptions()))
 
         return r.items()
 
